@@ -36,7 +36,9 @@ VALIDATORS = (None, 'soft', 'lxml')
 def shards(tier, seed):
     n = 16 if tier == 'quick' else 48
     per = 3 if tier == 'quick' else 14
-    return [{'shard': 'u%d' % i, 'tier': tier, 'seed': seed, 'first': i * per, 'count': per} for i in range(n)]
+    step = 4 if tier == 'quick' else 1
+    return [{'shard': 'u%d' % i, 'tier': tier, 'seed': seed, 'first': i * per, 'count': per} for i in range(n)] + \
+           [{'shard': 'leaf%d' % i, 'scenario': 'leaf', 'tier': tier, 'seed': seed, 'first': i, 'count': step} for i in range(0, len(LEAVES), step)]
 
 
 def make_protocols(kind, validator):
@@ -467,6 +469,76 @@ def run_universe(R, seed, uid, tier, only=None, headers=False):
                     run_call(R, C, md, args, rets, driver, rng, repro)
 
 
+LEAVES = [
+    {'prim': 'Unicode', 'facets': {}}, {'prim': 'Unicode', 'facets': {'max_len': 3}}, {'prim': 'Unicode', 'facets': {'min_len': 1}},
+    {'prim': 'Unicode', 'facets': {'pattern': '[a-c]+'}}, {'prim': 'Unicode', 'facets': {'values': ['a', 'bb', 'c c', ' d ']}},
+    {'prim': 'Integer', 'facets': {}}, {'prim': 'Integer', 'facets': {'ge': -3, 'le': 7}}, {'prim': 'Integer32', 'facets': {}},
+    {'prim': 'Integer64', 'facets': {}}, {'prim': 'UnsignedInteger64', 'facets': {}}, {'prim': 'UnsignedInteger8', 'facets': {}},
+    {'prim': 'Decimal', 'facets': {}}, {'prim': 'Decimal', 'facets': {'ge': '-1.5', 'le': '2.25'}},
+    {'prim': 'Decimal', 'facets': {'total_digits': 4, 'fraction_digits': 4}}, {'prim': 'Decimal', 'facets': {'total_digits': 5, 'fraction_digits': 2}},
+    {'prim': 'Decimal', 'facets': {'total_digits': 3, 'fraction_digits': 0}}, {'prim': 'Decimal', 'facets': {'total_digits': 1, 'fraction_digits': 1}},
+    {'prim': 'Double', 'facets': {}}, {'prim': 'Double', 'facets': {'ge': '0.0', 'lt': '1.0'}},
+    {'prim': 'Boolean', 'facets': {}}, {'prim': 'DateTime', 'facets': {}}, {'prim': 'Date', 'facets': {}}, {'prim': 'Time', 'facets': {}},
+    {'prim': 'Duration', 'facets': {}}, {'prim': 'Uuid', 'facets': {}}, {'prim': 'AnyUri', 'facets': {}}, {'prim': 'ByteArray', 'facets': {}},
+]
+LEAF_UID = 9600
+
+
+def leaf_ir(li):
+    """one leaf declaration at every position a leaf can have: argument, return value, member, array item, repeated member,
+    attribute, and the text of an element that has attributes (XmlData)"""
+    import json
+    lt = LEAVES[li]
+    leaf = lambda **kw: dict(json.loads(json.dumps(lt)), **kw)
+    ns = 'urn:vf:c01:leaf%d' % li
+    U = {'prim': 'Unicode', 'facets': {}}
+    T0 = {'name': 'T0', 'ns': ns, 'base': None, 'has_xmldata': False,
+          'fields': [['f', leaf()], ['fl', {'array': leaf()}], ['fs', {'seq': leaf(), 'max': 'unbounded'}], ['fa', {'attr': leaf()}]]}
+    TX = {'name': 'TX', 'ns': ns, 'base': None, 'has_xmldata': True, 'fields': [['body', {'xmldata': leaf()}], ['note', {'attr': dict(U)}]]}
+    M_ = lambda name, args, rets, style='wrapped': {'name': name, 'args': args, 'returns': rets, 'style': style}
+    methods = [M_('leaf', [['a', leaf()]], [leaf()]), M_('obj', [['o', {'ref': 'T0'}]], [{'ref': 'T0'}]),
+               M_('body', [['x', {'ref': 'TX'}], ['xs', {'array': {'ref': 'TX'}}]], [{'ref': 'TX'}]),
+               M_('many', [['a', leaf()], ['o', {'ref': 'T0'}], ['x', {'ref': 'TX'}]], [leaf(), {'ref': 'T0'}, {'ref': 'TX'}]),
+               M_('bare_leaf', [['a', leaf()]], [leaf()], 'bare'), M_('out_bare', [['a', leaf()]], [{'array': leaf()}], 'out_bare')]
+    return {'uid': LEAF_UID + li, 'tns': ns, 'types': [T0, TX], 'services': [{'name': 'S', 'methods': methods}]}
+
+
+def leaf_matrix(R, seed, li, tier):
+    """boundary-biased conformant values of one leaf declaration, the same value at every position of a call and of its reply"""
+    ir = leaf_ir(li)
+    lt = LEAVES[li]
+    rng = core.rng_for(seed, PROP, 'leaf%d' % li)
+    vals = []
+    for _ in range(60 if tier == 'quick' else 400):
+        v = gen.gen_prim_value(rng, lt['prim'], lt.get('facets'), 'xml')
+        if v is not None and not any(type(v) is type(w) and repr(v) == repr(w) for w in vals):
+            vals.append(v)
+    vals = vals[:12 if tier == 'quick' else 80]
+    configs = [(k, v) for k in PROTOCOLS for v in VALIDATORS]
+    if tier == 'quick':
+        rng.shuffle(configs)
+        configs = configs[:3]
+    for kind, validator in configs:
+        try:
+            C = Ctx(ir, kind, validator, rng)
+        except Exception as e:
+            R.skip('leaf universe rejected at construction: %s' % type(e).__name__)
+            if len(R.notes) < 6:
+                R.notes.append('leaf universe %d rejected: %r' % (li, e))
+            continue
+        R.count('apps_built')
+        for v in vals:
+            w = rng.choice(vals)
+            obj = lambda a, b: {'__class__': 'T0', 'f': a, 'fl': [a, b], 'fs': [b, a], 'fa': a}
+            tx = lambda a: {'__class__': 'TX', 'body': a, 'note': 'n'}
+            for md in ir['services'][0]['methods']:
+                args = {'leaf': [v], 'obj': [obj(v, w)], 'body': [tx(v), [tx(w), tx(v)]], 'many': [v, obj(w, v), tx(v)], 'bare_leaf': [v], 'out_bare': [v]}[md['name']]
+                rets = {'leaf': [v], 'obj': [obj(v, w)], 'body': [tx(v)], 'many': [w, obj(v, v), tx(w)], 'bare_leaf': [v], 'out_bare': [[v, w]]}[md['name']]
+                repro = {'scenario': 'leaf', 'leaf': li, 'seed': seed, 'uid': ir['uid'], 'kind': kind, 'validator': validator, 'method': md['name'], 'value': repr(v)[:80]}
+                run_call(R, C, md, args, rets, rng.choice(('server', 'wsgi')), rng, repro)
+                R.count('leaf_matrix_calls')
+
+
 def multiref_scenario(R, seed):
     """SOAP section-5 multi-reference values as the toolkits that use that encoding write them: the arguments are accessors
     (href) to independent elements of the Body that carry the data; one target may be referenced twice, targets may refer
@@ -522,6 +594,10 @@ def multiref_scenario(R, seed):
 
 
 def run(spec, R):
+    if spec.get('scenario') == 'leaf':
+        for li in range(spec['first'], min(len(LEAVES), spec['first'] + spec['count'])):
+            leaf_matrix(R, spec['seed'], li, spec['tier'])
+        return
     if spec['first'] == 0:
         multiref_scenario(R, spec['seed'])
         run_universe(R, spec['seed'], 9400, spec['tier'])
@@ -533,6 +609,11 @@ def run(spec, R):
 
 def replay(v, R):
     c = v['repro']
+    if c.get('scenario') == 'leaf':
+        leaf_matrix(R, c['seed'], c['leaf'], 'thorough')
+        for x in R.violations[:10]:
+            print('replayed:', x.get('mech'), x.get('what'))
+        return
     if c.get('scenario') == 'multiref':
         multiref_scenario(R, c['seed'])
         for x in R.violations[:10]:
